@@ -374,7 +374,7 @@ def discharge(ob, timeout_ms=10000):
         if r0 == z3.unknown:
             # busy machine / hard path condition: decide the path's feasibility with the full budget (all hypotheses)
             s0 = z3.Solver()
-            s0.set("timeout", int(timeout_ms) * int(os.environ.get("VF_RETRY_FACTOR", "6")))
+            s0.set("timeout", max(int(timeout_ms), min(int(timeout_ms) * int(os.environ.get("VF_RETRY_FACTOR", "6")), 120000)))
             for h in ob.hyps:
                 s0.add(h)
             r0 = s0.check()
@@ -420,7 +420,7 @@ def discharge(ob, timeout_ms=10000):
         # (at most a few per contract case, so that a broken tree does not cost minutes per obligation)
         RETRY_LEFT[0] -= 1
         s4 = z3.Solver()
-        s4.set("timeout", int(timeout_ms) * int(os.environ.get("VF_RETRY_FACTOR", "6")))
+        s4.set("timeout", max(int(timeout_ms), min(int(timeout_ms) * int(os.environ.get("VF_RETRY_FACTOR", "6")), 120000)))
         s4.set("random_seed", 7)
         for h in ob.hyps:
             s4.add(h)
